@@ -155,7 +155,10 @@ pub fn candid_side(env: &REnv, ts: &[RType], names: Option<&Names>) -> (TypeEnv,
 /// Coarse, stable class of a candid error: the root cause line (anyhow chain, last entry) without
 /// digits / hex payloads / state dumps.
 pub fn err_class(e: &dyn std::fmt::Debug) -> String {
-    let s = format!("{e:?}");
+    err_class_str(&format!("{e:?}"))
+}
+/// Same, on the text of an error's `{:?}` rendering.
+pub fn err_class_str(s: &str) -> String {
     let mut cand: Vec<String> = Vec::new();
     for line in s.lines() {
         let mut l = line.trim();
